@@ -526,6 +526,14 @@ impl Transaction {
         );
         let transaction_type: TransactionType =
             FromPrimitive::from_u8(bytes[92]).ok_or(Error::from(ErrorKind::InvalidData))?;
+        // the buffer must hold everything its header declares (u64 arithmetic: no wrap on 32-bit targets)
+        let declared_len: u64 = TRANSACTION_SIZE as u64
+            + (inputs_len as u64 + outputs_len as u64) * SLIP_SIZE as u64
+            + message_len as u64
+            + path_len as u64 * HOP_SIZE as u64;
+        if (bytes.len() as u64) < declared_len {
+            return Err(Error::from(ErrorKind::InvalidData));
+        }
         let start_of_inputs = TRANSACTION_SIZE;
         let start_of_outputs = start_of_inputs + inputs_len as usize * SLIP_SIZE;
         let start_of_message = start_of_outputs + outputs_len as usize * SLIP_SIZE;
